@@ -47,6 +47,12 @@ ORDERED_DIRECTED = [
     "a:H;a:G;s:0:0:x=1&x/I0=5&x/I2=6;io:0:x:-=1&-=2&-=3;r:0:0:x;s:0:0:x=2;io:0:x:-=1;d:0;a:H;s:2:0:x=1;io:2:x:-=9",
     # wildcard keys, several parents, fields in order of first appearance, batches, reorder of a child that is not in the index
     "a:H;a:H;s:0:0:x=1&y=2&x/z=3;io:0:*:a=1&b=2&a=3;ro:0:*/I1=I0&x/z=I0&*/*=;b:0:io~x~I0=7+ro~x/I0=+s~0~x/q=1+io~*/*~-=1;b:1:io~/H/0/x~-=1+ro~/H/0/x/*=I0+r~0~/H/0/x/I0;d:1;io:0:x/z:-=1;ro:0:x/z/I0=x",
+    # SETDATA with PR_NAME_FLAGS: QUIET (4) suppresses the notice of this write only -- the new node still gets the marks of the sessions
+    # subscribed to it, so its later updates, its removal and the owner's departure are told; ADDTOINDEX (8) appends a NEW leaf to its
+    # parent's index and leaves an existing node alone; both (12); with DONTCREATE (1) / DONTOVERWRITE (2)
+    "a:H;a:H;p:1:0:/*/*/*&/*/*/*/*;s:0:0:x=1;s:0:12:x/a=1;s:0:0:x/a=2;s:0:8:x/b=3;s:0:4:x/c=4;s:0:0:x/c=5;g:1:/*/*/*/*;r:0:0:x/a;d:0",
+    "a:H;a:G;p:1:0:/*/*/*;s:0:12:q=1&q/r=2;p:1:0:/*/*/*/*;s:0:0:q=3&q/r=4;s:0:8:q=9&z=1;s:0:9:y=1;s:0:10:q=7&w=2;s:0:14:q=8&v=3;io:0:*:-=1;s:0:12:q/I0=5&q/I1=6;ro:0:q/*=r;d:0",
+    "a:H;a:H;a:H;p:1:0:/*/*/x*;p:2:0:x&/H/0/xy;s:0:12:xy=1;s:0:12:xy=2;s:0:4:xy=3;s:0:0:xy=4;b:0:s~12~xz=1+s~0~xz=2+r~0~xz+s~12~xz=3;d:0;s:2:12:x=1;d:2",
     # the session node itself cannot be a parent (the traversal starts below it); depth limits do not matter here
     "a:H;a:H;io:0::-=1;io:0:/:-=1;io:0:*:-=1;s:0:0:x=1;io:0:*:-=1;ro:0:x=I0;ro:0:*=;d:0",
 ]
@@ -168,6 +174,9 @@ class Gen:
             items.append("%s=%d" % (p, rng.randrange(0, 10)))
         items = grouped_items(items)
         fl = rng.choice([0, 0, 0, 0, 0, 1, 2, 3]) | (4 if (self.quiet and rng.random() < 0.1) else 0)
+        if self.ordered:
+            # PR_NAME_FLAGS: SETDATANODE_FLAG_QUIET (4), SETDATANODE_FLAG_ADDTOINDEX (8), both (12)
+            fl |= (4 if rng.random() < 0.25 else 0) | (8 if rng.random() < 0.35 else 0)
         return ("s:%d:%d:%s" % (k, fl, "&".join(items))) if sep == ":" else ("s~%d~%s" % (fl, "&".join(items)))
 
     def rem_cmd(self, k, sep=":", hostile=False):
